@@ -15,7 +15,8 @@ def main(tier: str) -> int:
     if tier == "quick":
         for lang in ("c", "cpp", "py"):
             for ty in ("any", "path", "macro"):
-                conds.append(Cond(M, "strop_ok", 900, 120, dict(C09_LANG=lang, C09_TYPE=ty, C09_LEN="2")))
+                for ch in SIGMA:       # split by first character over processes (same bound, shorter wall time)
+                    conds.append(Cond(M, "strop_ok", 600, 120, dict(C09_LANG=lang, C09_TYPE=ty, C09_LEN="2", C09_FIRST=ch)))
         for lang in ("c", "py"):
             conds.append(Cond(M, "result_independent_of_earlier_language_objects", 900, 300, dict(C09_LANG=lang, C09_TYPE="any")))
         rep.bounds = dict(token_length="1..2", alphabet="12 class representatives: a A 1 _ space tab - e-acute i f d o", id_types="any, path, macro", languages="c, cpp, py",
